@@ -308,11 +308,27 @@ def rule_sparse_dense(chk, prog):
 
 
 # -------------------------------------------------------- solve strategies
-def slices_table(ev, env):
+def slices_table(ev, env, A=None, Ls=None):
+  """{role: slice term} for the index sets of the implicit matrix, identified by their bounds (normal forms in
+  L = layers), not by the names of the locals that hold them: div=[0,L) temp=[L,2L) logp=[2L,2L+1) temp_logp=[L,2L+1)."""
   out = {}
-  for n in ('div', 'temp', 'logp', 'temp_logp'):
-    if n in env and env[n].k == 'slice':
-      out[n] = env[n]
+  if A is None:
+    return out
+  roles = {'div': (0, Ls), 'temp': (Ls, 2 * Ls), 'logp': (2 * Ls, 2 * Ls + 1), 'temp_logp': (Ls, 2 * Ls + 1)}
+  cands = []
+  for x in env.values():
+    if isinstance(x, Term) and x.k == 'slice' and x not in cands:
+      cands.append(x)
+  for x in cands:
+    if x.a[2] != sym.NONE:
+      continue
+    lo = A.conv(x.a[0]) if x.a[0] != sym.NONE else sp.Integer(0)
+    if x.a[1] == sym.NONE:
+      continue
+    hi = A.conv(x.a[1])
+    for role, (rlo, rhi) in roles.items():
+      if alg.equal(lo, rlo) and alg.equal(hi, rhi) and role not in out:
+        out[role] = x
   return out
 
 
@@ -328,12 +344,9 @@ def rule_strategies(chk, prog):
   L = Term('attr', Term('attr', Term('attr', Term('sym', 'self:PrimitiveEquations', cls=c), 'coords'), 'vertical'), 'layers')
   A = alg.Algebra(ev)
   Ls = A.conv(L)
-  tbl = slices_table(ev, env)
-  okp = set(tbl) == {'div', 'temp', 'logp', 'temp_logp'}
-  if okp:
-    b = {n: (A.conv(tbl[n].a[0]), A.conv(tbl[n].a[1])) for n in tbl}
-    okp = (alg.equal(b['div'][0], 0) and alg.equal(b['div'][1], Ls) and alg.equal(b['temp'][0], Ls) and alg.equal(b['temp'][1], 2 * Ls)
-           and alg.equal(b['logp'][0], 2 * Ls) and alg.equal(b['logp'][1], 2 * Ls + 1) and alg.equal(b['temp_logp'][0], Ls) and alg.equal(b['temp_logp'][1], 2 * Ls + 1))
+  tbl = slices_table(ev, env, A, Ls)
+  nslices = len({x for x in env.values() if isinstance(x, Term) and x.k == 'slice'})
+  okp = set(tbl) == {'div', 'temp', 'logp', 'temp_logp'} and nslices == 4
   chk.check(okp, rule, f'{site}: div / temp / logp index sets partition range(2·layers + 1) in the order of the matrix blocks', str({n: sym.show(t) for n, t in tbl.items()}), loc,
             'div=[0,L) temp=[L,2L) logp=[2L,2L+1) temp_logp=[L,2L+1)', str({n: sym.show(t) for n, t in tbl.items()}))
   # tracer guard before any inverse
